@@ -41,7 +41,16 @@ def ctxkw(H):
     return dict((k, CTX[k]) for k in getattr(H, "context_kwds", ()) if k in CTX)
 
 
+_TMPL = {}
+
+
 def templates(name):
+    if name not in _TMPL:
+        _TMPL[name] = _templates(name)
+    return _TMPL[name]
+
+
+def _templates(name):
     from passlib import registry
     H = registry.get_crypt_handler(name)
     b = getattr(H, "wrapped", H)
@@ -271,7 +280,7 @@ def ob_concrete(names):
             for s in ("", " ", "\x00", "$", "$$", "*", "!", "x", t + "$", "$" + t, t.replace("$", "$$", 1), t + "\n", " " + t,
                       t.encode("ascii", "replace"), t[::-1], "é" + t, t + "\x00"):
                 muts.add(s)
-            for m in muts:
+            for m in sorted(muts, key=lambda x: (str(type(x)), x)):
                 n += 1
                 for label, fn in (("identify", lambda: H.identify(m)), ("verify", lambda: H.verify("pw", m, **kw)),
                                   ("needs_update", lambda: H.needs_update(m))):
@@ -288,14 +297,21 @@ def ob_concrete(names):
                     except Exception as e:
                         bad.append((name, m, "%s raises %s: %s" % (label, type(e).__name__, e)))
     if bad:
-        nm, m, what = bad[0]
-        t = templates(nm)[1][0]
-        ms = m if isinstance(m, str) else m.decode("latin-1")
-        base_nm = getattr(templates(nm)[0], "wrapped", templates(nm)[0]).name
-        key = "mutate:%s:%s" % (base_nm, "internal-error" if "raises" in what else "accepts-altered:" + classify(t, ms))
-        return violation("%s: %r %s (%d such cases)" % (nm, m, what, len(bad)), key,
-                         {"module": "harness.c08", "func": "replay_mutant",
-                          "args": {"name": nm, "orig": t, "mutated": m if isinstance(m, str) else m.decode("latin-1")}})
+        out = []
+        seen = set()
+        for nm, m, what in sorted(bad, key=lambda x: (x[0], str(x[1]))):
+            t = templates(nm)[1][0]
+            ms = m if isinstance(m, str) else m.decode("latin-1")
+            base_nm = getattr(templates(nm)[0], "wrapped", templates(nm)[0]).name
+            tt = [x for x in templates(nm)[1] if len(x) in (len(ms) - 1, len(ms), len(ms) + 1)] or [t]
+            key = "mutate:%s:%s" % (base_nm, "internal-error" if "raises" in what else "accepts-altered:" + classify(tt[0], ms))
+            if key in seen:
+                continue
+            seen.add(key)
+            out.append(violation("%s: %r %s" % (nm, m, what), key,
+                                 {"module": "harness.c08", "func": "replay_mutant",
+                                  "args": {"name": nm, "orig": tt[0], "mutated": ms}}, name="concrete[%s:%s]" % (nm, key.split(":")[-1])))
+        return out
     return ok("%d hashers: %d truncations/deletions/duplications/affixes handled cleanly, none verifies" % (len(names), n), paths=n,
               verdict="finite-enumeration", nontrivial=False)
 
@@ -307,8 +323,9 @@ def _by_design(name, orig, mutated):
         try:
             from passlib.hash import scram
             a, b = scram.from_string(orig), scram.from_string(mutated)
-            best = [alg for alg in ("sha-512", "sha-384", "sha-256", "sha-224", "sha-1") if alg in a.checksum and alg in b.checksum]
-            return bool(best) and (a.salt, a.rounds) == (b.salt, b.rounds) and a.checksum[best[0]] == b.checksum[best[0]]
+            used = [alg for alg in scram._verify_algs if alg in b.checksum]          # the digest verify() consults
+            return bool(used) and (a.salt, a.rounds) == (b.salt, b.rounds) and used[0] in a.checksum \
+                and a.checksum[used[0]] == b.checksum[used[0]]
         except Exception:
             return False
     return False
